@@ -237,6 +237,7 @@ pub fn name_pool() -> Vec<&'static str> {
     vec![
         "", "7", "+7", "007", "+007", "-0", "-7", " 7", "7 ", "７", "٣", "1e3", "0x10", "1_000", "++7", "+", "-", "abc", "a b", "18446744073709551615", "18446744073709551616", "+18446744073709551615",
         "0000000000000000000000000000000000000007", "9999999999999999999999999999999999999999", "0", "+0", "1.0", "🔥", "_", "$x",
+        "00000000000000000000000000000000000000005", "+000000000000000000000000000000000000000000000000000000000000000018446744073709551615", "000000000000000000000000000000000000000000000000000000000000000018446744073709551616",
         // names that look like they carry a surface prefix / padding: must be stored verbatim
         "^left", "^", "^^x", "#x", "?x", "+x", "_x", "-x", "x-", " x", "x ", "\t", "a\nb", "\\$x", "任一x", "操作x", "某", "\\Uparrow{}x", "<a --> b>", "a.b", "%1%",
     ]
@@ -248,7 +249,9 @@ pub fn strategy() -> BoxedStrategy<Case> {
     let nm = prop_oneof![
         60 => select(name_pool()).prop_map(|s| s.to_string()),
         15 => "\\PC{0,6}",
-        15 => vec(select("0123456789".chars().collect::<Vec<_>>()), 1..=24).prop_map(|v| v.into_iter().collect::<String>()),
+        10 => vec(select("0123456789".chars().collect::<Vec<_>>()), 1..=24).prop_map(|v| v.into_iter().collect::<String>()),
+        // a value that fits, written with any number of leading zeros (total length up to ≈ 320)
+        8 => (gen::interval_value(), prop_oneof![0usize..=8, 9usize..=45, 46usize..=300], any::<bool>()).prop_map(|(v, zeros, plus)| format!("{}{}{v}", if plus { "+" } else { "" }, "0".repeat(zeros))),
         10 => gen::name(0, gen::NameProfile::Main),
         10 => (select(vec!["^", "$", "#", "?", "+", "_", "-", " ", "任一", "操作", "\\$", "\\Uparrow{}"]), gen::name(0, gen::NameProfile::Main)).prop_map(|(p, n)| format!("{p}{n}")),
     ];
